@@ -320,6 +320,87 @@ fn writer_frames(g: &mut Gen, st: &mut Stats) -> CaseResult {
     Ok(())
 }
 
+/// io::Write that can be told to fail the next call outright (nothing accepted) and otherwise accepts short writes.
+struct FaultySink { data: Vec<u8>, piece: usize, fail_next: bool, calls: usize }
+impl io::Write for FaultySink {
+    fn write(&mut self, b: &[u8]) -> io::Result<usize> {
+        self.calls += 1;
+        if self.fail_next { self.fail_next = false; return Err(io::Error::new(io::ErrorKind::BrokenPipe, "scripted sink failure")) }
+        let n = b.len().min(self.piece.max(1));
+        self.data.extend_from_slice(&b[.. n]);
+        Ok(n)
+    }
+    fn flush(&mut self) -> io::Result<()> { Ok(()) }
+}
+
+/// Histories of calls on ONE writer: good values interleaved with refused ones (over max_len, failing Encode,
+/// sink failure before any byte of the frame was taken) and max_len changes. The sink must hold exactly the
+/// frames of the successful writes, each successful write returns its payload length, nothing of a refused
+/// value may leak into a later frame, and no emitted frame exceeds the maximum in force.
+fn writer_histories(g: &mut Gen, st: &mut Stats) -> CaseResult {
+    st.eval();
+    let mut w = Writer::new(FaultySink { data: Vec::new(), piece: 1 + g.below(12), fail_next: false, calls: 0 });
+    let mut max_len: usize = 512 * 1024;
+    let mut expected: Vec<u8> = Vec::new();
+    let mut log = String::new();
+    let n = 2 + g.below(8);
+    let mut refused = 0;
+    let mut after_refusal_ok = 0;
+    for _ in 0 .. n {
+        match g.below(8) {
+            0 => { let m = *g.pick(&[0u32, 1, 2, 8, 64, 512 * 1024]); w.set_max_len(m); max_len = m as usize; log.push_str(&format!("max_len={} ", m)) }
+            1 => {
+                log.push_str("failing-encode ");
+                let before = w.writer().data.len();
+                ensure!(w.write(crate::vals::FailAfter(g.below(6))).is_err(), "failing-encode-accepted", "history [{}]: a value whose Encode fails was written", log);
+                ensure!(w.writer().data.len() == before, "refused-value-emitted", "history [{}]: a failing value put bytes into the sink", log);
+                refused += 1;
+            }
+            2 => {
+                // sink refuses the first write call of this frame: nothing of it reaches the sink
+                let v = Val::small(g);
+                log.push_str(&format!("sink-fails({:?}) ", v));
+                w.writer_mut().fail_next = true;
+                let before = w.writer().data.len();
+                if v.encoded().len() > max_len {
+                    // refused before the sink is touched
+                    match write_val(&mut w, &v) { Err(Error::InvalidLen) => {}, other => fail!("writer-max-len", "history [{}]: over-long value gave {:?}", log, other.map_err(|e| e.to_string())) }
+                    w.writer_mut().fail_next = false;
+                } else {
+                    match write_val(&mut w, &v) { Err(Error::Io(_)) => {}, other => fail!("sink-error-not-reported", "history [{}]: sink failure gave {:?}", log, other.map_err(|e| e.to_string())) }
+                }
+                ensure!(w.writer().data.len() == before, "refused-value-emitted", "history [{}]: bytes reached the sink although it refused the call", log);
+                refused += 1;
+            }
+            _ => {
+                let v = if g.chance(60) { Val::S("z".repeat(max_len + 1 + g.below(4))) } else { Val::small(g) };
+                let e = v.encoded();
+                log.push_str(&format!("write({} bytes) ", e.len()));
+                let before = w.writer().data.len();
+                let r = write_val(&mut w, &v);
+                if e.len() > max_len {
+                    match r { Err(Error::InvalidLen) => {}, other => fail!("writer-max-len", "history [{}]: a {}-byte value with max_len {} gave {:?}", log, e.len(), max_len, other.map_err(|e| e.to_string())) }
+                    ensure!(w.writer().data.len() == before, "refused-value-emitted", "history [{}]: an over-long value put bytes into the sink", log);
+                    refused += 1;
+                } else {
+                    match r {
+                        Ok(k) => ensure!(k == e.len(), "writer-return", "history [{}]: write returned {} for a {}-byte payload", log, k, e.len()),
+                        Err(err) => fail!("good-value-refused", "history [{}]: a {}-byte value within max_len {} was refused: {}", log, e.len(), max_len, err)
+                    }
+                    expected.extend_from_slice(&v.frame());
+                    if refused > 0 { after_refusal_ok += 1 }
+                    ensure!(w.writer().data == expected, "writer-bytes", "history [{}]: the sink holds {} ; the frames of the successful writes are {}", log, short_hex(&w.writer().data[before.min(w.writer().data.len()) ..]), short_hex(&expected[before.min(expected.len()) ..]));
+                }
+            }
+        }
+    }
+    ensure!(w.writer().data == expected, "writer-bytes", "history [{}]: final sink content differs from the frames of the successful writes", log);
+    st.class(if after_refusal_ok > 0 { "history/good-write-after-refusal" } else if refused > 0 { "history/refusal-last" } else { "history/no-refusal" });
+    if after_refusal_ok > 0 { st.nontrivial(hash_of(&log)) }
+    st.sample(hash_of(&log), || format!("[{}]", log.trim_end()));
+    Ok(())
+}
+
 pub fn subs() -> Vec<Sub> {
     let n14 = space_size(14);
     let n20 = space_size(20);
@@ -336,6 +417,8 @@ pub fn subs() -> Vec<Sub> {
               kind: SubKind::Random { quick: 200_000, thorough: 1_000_000, tape: 1024, f: resync } },
         Sub { prop: "C14", name: "limits", rule: "max_len in {len-1, len, len+1, 0, 512 KiB, random} on writer (InvalidLen, zero bytes emitted) and reader (InvalidLen, no allocation for the refused frame; hostile prefixes up to 2^32-1; peak allocation bounded)",
               kind: SubKind::Random { quick: 200_000, thorough: 1_000_000, tape: 1024, f: limits } },
+        Sub { prop: "C14", name: "writer-histories", rule: "2-9 calls on one Writer: good values interleaved with refused ones (over max_len, failing Encode, sink failing before the frame) and max_len changes; sink == frames of the successful writes after every step, returned lengths exact, nothing of a refused value leaks into a later frame; non-trivial = a successful write after a refusal",
+              kind: SubKind::Random { quick: 150_000, thorough: 3_000_000, tape: 1024, f: writer_histories } },
         Sub { prop: "C14", name: "writer", rule: "0-5 values through a short-writing sink: bytes == concatenation of 4-byte big-endian length + encoding, write returns the payload length, a value whose Encode fails emits nothing",
               kind: SubKind::Random { quick: 150_000, thorough: 1_000_000, tape: 1024, f: writer_frames } },
     ]
